@@ -1791,7 +1791,8 @@ def toReclaim (N : Naming) (shardOf : Nat → Nat) (s : Server) : Reclaim.State 
     conds := s.ups.flatMap (condsOf N shardOf)
     fcs := []
     listed := s.listed.map (fun p => (N.un p.1, [⟨N.sname, some p.2, none⟩]))
-    locks := [] }
+    locks := []
+    failing := [] }   -- no API fault is injected in the loop
 
 theorem toReclaim_heartbeat (N : Naming) (shardOf : Nat → Nat) (s : Server) (i t : Nat) :
     toReclaim N shardOf (s.heartbeat i t) = Reclaim.heartbeat (toReclaim N shardOf s) (N.iname i) t := by
@@ -1854,7 +1855,8 @@ theorem deletable_rec (N : Naming) (shardOf : Nat → Nat) (hsh : ∀ u, N.shard
     (u : Nat) (e : UpStore) (r : Nat × Int) :
     Reclaim.deletable N.shardOf' (toReclaim N shardOf s) (recCond N u e r) = s.isLeader (shardOf u) := by
   have : (N.iname r.1 != []) = true := by simpa using N.iname_ne r.1
-  simp only [Reclaim.deletable, recCond, hsh, this, Bool.and_true]
+  have hf : (toReclaim N shardOf s).failing = [] := rfl
+  simp only [Reclaim.deletable, recCond, hsh, this, Bool.and_true, hf, List.contains_nil, Bool.not_false]
   rfl
 
 /-- a record is picked by C18's time-out pass iff the loop's pass drops it -/
@@ -2053,7 +2055,7 @@ theorem toReclaim_cleanupUnknown (N : Naming) (shardOf : Nat → Nat) (hsh : ∀
   unfold Reclaim.cleanupUnknown
   have htrue : ∀ {α : Type} (l : List α), l.filter (fun _ => true) = l :=
     fun l => List.filter_eq_self.2 (fun _ _ => rfl)
-  simp only [hnone, List.map_nil, List.contains_nil, Bool.not_false, htrue]
+  simp only [hnone, List.map_nil, List.contains_nil, Bool.not_false, Bool.false_and, htrue]
   have hc : (toReclaim N shardOf s).conds.filter (fun r =>
       !(Reclaim.unknown (toReclaim N shardOf s) r.2 && Reclaim.deletable N.shardOf' (toReclaim N shardOf s) r.2))
       = (s.ups.map (fun p => (p.1, if s.isLeader (shardOf p.1) then p.2.drop (fun i => !s.hbHas i) else p.2))).flatMap
